@@ -599,3 +599,62 @@ def specs_entry(prop='C11'):
                  [dict(kind=k) for k in ('before_outside', 'after_outside', 'containing', 'desc_before', 'desc_after')],
                  run_compose, notes='lemma over the per-node contract of _offset; zero-width nodes on the spot excluded'),
     ]
+
+
+# ---------------------------------------------------------------------------------------------------------------------
+# code text -> lines: the list-of-lines model every source splice works on must reproduce the text exactly
+
+def finite_code_as_lines(payload):
+    """native, exhaustive over single separators: for EVERY Unicode code point ch in three contexts, the real
+    code._code_as_lines(s) is the unique list with '\\n'.join(lines) == s and no '\\n' inside a line"""
+    from fst.code import _code_as_lines as f
+    bad = {'join_inverse': [], 'no_newline_in_line': []}
+    n = 0
+    for cp in range(0x110000):
+        if 0xD800 <= cp <= 0xDFFF:
+            continue
+        ch = chr(cp)
+        for s in ('a' + ch + 'b', ch, 'a' + ch):
+            n += 1
+            try:
+                r = f(s)
+                ok1 = '\n'.join(r) == s
+                ok2 = all('\n' not in x for x in r)
+            except Exception as e:   # pragma: no cover
+                r, ok1, ok2 = repr(e), False, False
+            if not ok1 and len(bad['join_inverse']) < 5:
+                bad['join_inverse'].append({'code': s, 'lines': r})
+            if not ok2 and len(bad['no_newline_in_line']) < 5:
+                bad['no_newline_in_line'].append({'code': s, 'lines': r})
+    lst = ['x', 'y']
+    other = {'list_is_returned_unchanged': f(lst) is lst, 'none_is_one_empty_line': f(None) == [''],
+             'multi': f('a\n\nb\n') == ['a', '', 'b', '']}
+    return {'evaluations': n, 'bad': bad, 'other': other}
+
+
+def code_as_lines_finite(rep, prop):
+    from pyvc import native, frontend
+
+    class _S:
+        name = 'finite-domain evaluation (every code point as separator)'
+        notes = 'str / list / None branches; the AST and FST branches delegate to unparse() / the tree\'s own lines'
+    rep.function(frontend.locate('code:_code_as_lines'), _S)
+    r = native.run('k_offset', 'finite_code_as_lines', {})
+    for name, items in r['bad'].items():
+        key = f'{prop}.code_as_lines.{name}'
+        rep.other('finite', key, not items,
+                  detail=(f'_code_as_lines({items[0]["code"]!r}) = {items[0]["lines"]!r}' if items else
+                          f'{r["evaluations"]} strings'), key=key,
+                  replay={'failing': items, 'replayed': bool(items), 'native_entry': ('k_offset', 'replay_code_as_lines')})
+    for name, ok in r['other'].items():
+        rep.other('finite', f'{prop}.code_as_lines.{name}', ok, key=f'{prop}.code_as_lines.{name}')
+    if r['evaluations'] < 3000000:
+        rep.checker_error('code_as_lines domain shrank')
+
+
+def replay_code_as_lines(payload):
+    from fst.code import _code_as_lines as f
+    items = (payload.get('replay') or payload).get('failing') or []
+    out = [{'code': i['code'], 'lines': f(i['code'])} for i in items]
+    return {'reproduced': any('\n'.join(o['lines']) != o['code'] or any('\n' in x for x in o['lines']) for o in out),
+            'now': out}
